@@ -118,6 +118,16 @@ _load_policies()"""), "NamespaceManager.drop_namespace|Definition.cables missing
     def definition_add_port(self, definition, port):
         self.add(definition, port)
 """), None),
+    Mutant("N9 the policy lets a plain identifier start with an underscore",
+           (ED, """            if identifier[0].isalpha() is False:
+                return False
+            return bool(re.match(r"^[0-9A-Za-z_]+$", identifier))""",
+            """            return bool(re.match(r"^[A-Za-z_][0-9A-Za-z_]*$", identifier))"""), "N9|"),
+    Mutant("twin: the first-character test folded into the pattern",
+           (ED, """            if identifier[0].isalpha() is False:
+                return False
+            return bool(re.match(r"^[0-9A-Za-z_]+$", identifier))""",
+            """            return bool(re.match(r"^[A-Za-z][0-9A-Za-z_]*$", identifier))"""), None),
     Mutant("twin: bind the lowered value to a local first",
            (ED, "            namespace[value.lower()] = element", "            folded = value.lower()\n            namespace[folded] = element"), None),
     Mutant("twin: traverse relations in another order",
